@@ -205,6 +205,9 @@ def classify(name, obj, before, uid):
             return f"L KDecl {uid[name]}"
     if name in before and isinstance(before[name], staticmethod) and obj is before[name].__func__:
         return f"W KStatic {uid[name]}"
+    if name in before and isinstance(before[name], classmethod) and isinstance(obj, types.MethodType) \
+            and obj.__func__ is before[name].__func__:
+        return f"W KClassm {uid[name]}"
     for other, o in before.items():
         if obj is o and other != name and not isinstance(obj, (int, str, type(None))):
             return f"U {member_kind(o)} {uid[other]}"
@@ -476,7 +479,7 @@ def variants(desc, rng, per_name=None):
     for n in expected_generated(desc) + ["__new__"]:
         kinds = KINDS if per_name is None else rng.sample(KINDS, per_name)
         if n == "__new__":
-            kinds = ["function"]
+            kinds = ["function"] if per_name is not None else ["function", "staticmethod", "classmethod", "property", "value"]
         for kd in kinds:
             d = json.loads(json.dumps(desc))
             d["occupied"] = [{"name": n, "kind": kd}]
@@ -610,6 +613,15 @@ def main(tier, replay=None):
         return 1 if bad else 0
     chk.proofs()
     cases, found = generate(chk.rng, tier)
+    import glob
+    import os
+    corpus = []
+    for f in sorted(glob.glob(os.path.join(os.path.dirname(os.path.dirname(os.path.abspath(__file__))), "corpus", "C16", "*.json"))):
+        try:
+            corpus.append((json.load(open(f))["desc"], "corpus"))
+        except (OSError, ValueError, KeyError):
+            pass
+    cases = corpus + cases
     descs = [fix_desc(d) for d, _ in cases]
     bad, logs, obss = evaluate(descs)
     reported = set()
